@@ -6,6 +6,7 @@ C07 — The reported hand category is the category of the best five-card hand.
 `Props/C01` shows the evaluated index *is* the class of the best five-card hand.
 -/
 import EspadaVerif.Model.Eval
+import EspadaVerif.Model.HandType
 import EspadaVerif.Spec.Poker
 import EspadaVerif.Props.C01Compare
 
